@@ -110,15 +110,25 @@ func (c *collector) flush(r *vx.Report) {
 // ---------------------------------------------------------------- run context
 
 type ctx struct {
-	tier     string
-	thorough bool
-	r        *vx.Report
-	col      *collector
-	mu       sync.Mutex
-	caps     map[string]bool
-	harness  map[string]bool
-	extra    map[string]any
-	samples  map[string][]any
+	tier      string
+	thorough  bool
+	r         *vx.Report
+	col       *collector
+	mu        sync.Mutex
+	caps      map[string]bool
+	harness   map[string]bool
+	extra     map[string]any
+	samples   map[string][]any
+	anomalies []string
+}
+
+// anomaly records something unexpected that is not a verdict on C13 (kept in the evidence for diagnosis).
+func (c *ctx) anomaly(s string) {
+	c.mu.Lock()
+	defer c.mu.Unlock()
+	if len(c.anomalies) < 20 {
+		c.anomalies = append(c.anomalies, s)
+	}
 }
 
 // sample keeps a few written-out cases per part (added to the report in a fixed order at the end).
@@ -237,6 +247,10 @@ func main() {
 		r.Extra["part_"+name] = st
 	}
 	r.DistinctOutcomes = len(outcomes)
+	r.Extra["unexpected_observations"] = append([]string{}, c.anomalies...)
+	for _, a := range c.anomalies {
+		fmt.Println("NOTE (not a verdict):", a)
+	}
 	for _, p := range parts {
 		for _, s := range c.samples[p.name] {
 			r.Sample(s)
@@ -247,7 +261,7 @@ func main() {
 	r.HarnessErrs = append(r.HarnessErrs, sortedKeys(c.harness)...)
 	r.Assumptions = []string{
 		"sizes are boundary sizes only (around each limit and around 32 KiB), not every size up to MaxBufferSize",
-		"WebTransport is exercised at the ServerTransport read loop over a harness stream, not over HTTP/3; messages >= 65536 bytes are left to C11 (64-bit length header)",
+		"WebTransport is exercised at the ServerTransport read loop over a harness stream, not over HTTP/3",
 		"a Content-Length smaller than the body can only be produced by calling ServeHTTP directly (net/http truncates such bodies itself); chunked bodies are also sent through a real net/http server",
 		"server->client messages larger than the announced maxPayload carry no requirement in the statement; they are run and their outcome recorded only",
 	}
